@@ -172,7 +172,7 @@ def run(tier, seed):
     for s, tr, pn, fl, d in states[:3] + states[len(states) // 2:len(states) // 2 + 2] + states[-2:]:
         r.sample({'profile': pn, 'trace': list(tr), 'specs': render.render(s)})
     r.run_tasks(task, states, budget=120)
-    pitems = list(paramspace.items(tier))
+    pitems = list(paramspace.items(tier)) + list(paramspace.fixed_items())
     r.bounds['parameter_space_items'] = len(pitems)
     r.run_tasks(ptask, pitems, budget=60, order_base=len(states))
     r.sample({'parameter-space': pitems[0][0], 'specs': pitems[0][3]})
